@@ -56,7 +56,19 @@ M = [
  ("C17", "reverse-order", "src/compile.rs", "for pipeline in &ir.pipelines {", "for pipeline in ir.pipelines.iter().rev() {", ["C17.select/source-order"]),
  ("C17", "duplicate-check-dropped", "typer/src/typer/pipelines.rs", "        return Err(TyperError::PipelineDuplicate(pipeline.name.location));", "        let _ = TyperError::PipelineDuplicate(pipeline.name.location);", ["C17.dup/unique-names"]),
  ("C18", "vulkan-flag-in-function-export", "hlsl/src/ast_generate.rs", "let return_type = generate_type(sig.return_type.return_type, context)?;", "let return_type = generate_type(sig.return_type.return_type, context)?; if context.module.flags.requires_vk_binding { attributes.clear(); }", ["C18.confine/generate_function_inner"]),
- ("C12", "macro-arguments-not-expanded", "preprocess/src/preprocess.rs", "let subbed_text = apply_macros(arg, macro_defs, false, source_manager)?;", "let subbed_text = arg.to_vec();", []),
+ ("C12", "macro-arguments-not-expanded", "preprocess/src/preprocess.rs", "                let subbed_text = apply_macros_internal(\n                    arg.to_vec(),\n                    macro_defs,\n                    macro_disabled,\n                    false,\n                    source_manager,\n                )?;", "                let subbed_text = arg.to_vec();", []),
+ ("C12", "macro-arguments-fresh-disabled-set", "preprocess/src/preprocess.rs", "                let subbed_text = apply_macros_internal(\n                    arg.to_vec(),\n                    macro_defs,\n                    macro_disabled,\n                    false,\n                    source_manager,\n                )?;", "                let subbed_text = apply_macros(arg, macro_defs, false, source_manager)?;", []),
+ ("C08", "macro-arguments-fresh-disabled-set", "preprocess/src/preprocess.rs", "                let subbed_text = apply_macros_internal(\n                    arg.to_vec(),\n                    macro_defs,\n                    macro_disabled,\n                    false,\n                    source_manager,\n                )?;", "                let subbed_text = apply_macros(arg, macro_defs, false, source_manager)?;", []),
+ ("C08", "lexer-error-slice-asserted-inside-input", "preprocess/src/lexer.rs", "                debug_assert!(\n                    rest.is_empty()\n                        || self.input_bytes.as_ptr_range().end == rest.as_ptr_range().end\n                );", "                debug_assert!(self.input_bytes.as_ptr_range().end == rest.as_ptr_range().end);", []),
+ ("C09", "enum-value-printed-at-full-level", "formatter/src/formatter.rs", "            output.push_str(\" = \");\n            format_expression_no_seq(expr, output, context)?;\n        }\n\n        output.push(',');", "            output.push_str(\" = \");\n            format_expression(expr, output, context)?;\n        }\n\n        output.push(',');", []),
+ ("C09", "template-argument-comma-level-only", "formatter/src/formatter.rs", "            format_subexpression(expr, 7, OperatorSide::CommaList, output, context)", "            format_subexpression(expr, 17, OperatorSide::CommaList, output, context)", []),
+ ("C04", "initialiser-printed-at-full-level", "formatter/src/formatter.rs", "ast::Initializer::Expression(expr) => format_expression_no_seq(expr, output, context)?,", "ast::Initializer::Expression(expr) => format_expression(expr, output, context)?,", []),
+ ("C01", "groupshared-exported-as-static", "hlsl/src/ast_generate.rs", "ir::GlobalStorage::GroupShared => Some(ast::TypeModifier::GroupShared),", "ir::GlobalStorage::GroupShared => Some(ast::TypeModifier::Static),", []),
+ ("C01", "inout-exported-as-out", "hlsl/src/ast_generate.rs", "ir::InputModifier::InOut => Some(ast::TypeModifier::InOut),", "ir::InputModifier::InOut => Some(ast::TypeModifier::Out),", []),
+ ("C04", "interpolation-sample-as-centroid", "hlsl/src/ast_generate.rs", "ir::InterpolationModifier::SamplePerspective => &[ast::TypeModifier::Sample],", "ir::InterpolationModifier::SamplePerspective => &[ast::TypeModifier::Centroid],", []),
+ ("C02", "msl-static-local-dropped", "msl/src/generator.rs", "        ir::LocalStorage::Static => Some(ast::TypeModifier::Static),", "        ir::LocalStorage::Static => None,", []),
+ ("C18", "hlsl-binding-count-ignores-array", "hlsl/src/ast_generate.rs", "                    descriptor_count,\n                    is_bindless: decl.is_bindless,\n                    is_used: true, // We do not currently check for usage", "                    descriptor_count: Some(1),\n                    is_bindless: decl.is_bindless,\n                    is_used: true, // We do not currently check for usage", []),
+ ("C18", "msl-bindless-flag-dropped", "msl/src/generator/pipeline.rs", "                    is_bindless: decl.is_bindless,\n                    is_used: true, // We will update this later", "                    is_bindless: false,\n                    is_used: true, // We will update this later", []),
  ("C09", "float32-printed-without-suffix", "formatter/src/formatter.rs", 'ast::Literal::Float32(v) => write!(output, "{v}f").unwrap(),', 'ast::Literal::Float32(v) => write!(output, "{v}").unwrap(),', []),
  ("C03", "swizzle-type-drops-modifier", "ir/src/ir_expressions.rs", "                let ty = module.type_registry.combine_modifier(ty, vec_mod);", "                let ty = { let _ = vec_mod; ty };", []),
  ("C03", "casts-applied-from-first", "typer/src/typer/expressions.rs", ".map(|(index, value)| casts[index].apply(value, &mut context.module))", ".map(|(index, value)| casts[index.min(0)].apply(value, &mut context.module))", []),
